@@ -421,6 +421,24 @@ func main() {
 				instrExpr(gd)
 			}
 		}
+		// an import whose every use was rewritten away (maps.Keys -> bklvKeys) becomes a blank import
+		stillUsed := map[string]bool{}
+		ast.Inspect(f, func(n ast.Node) bool {
+			if sel, ok := n.(*ast.SelectorExpr); ok {
+				if id, ok := sel.X.(*ast.Ident); ok {
+					if pn, ok := info.Uses[id].(*types.PkgName); ok {
+						stillUsed[pn.Imported().Path()] = true
+					}
+				}
+			}
+			return true
+		})
+		for _, im := range f.Imports {
+			path := strings.Trim(im.Path.Value, "`\"")
+			if (path == "maps" || path == "golang.org/x/exp/maps") && !stillUsed[path] && (im.Name == nil || (im.Name.Name != "_" && im.Name.Name != ".")) {
+				im.Name = ast.NewIdent("_")
+			}
+		}
 		for _, im := range f.Imports {
 			if im.Path.Value == `"sync"` {
 				im.Path.Value = `"github.com/gopatchy/bkl/bklvsync"`
